@@ -61,12 +61,12 @@ ASSUME MetaKeyCharsAreSafe == MetaKeyChar \subseteq Safe
 Min(S) == CHOOSE x \in S : \A y \in S : x <= y
 
 \* first position whose byte is not in C; 0 if there is none
-FirstNotIn(s, C) == LET B == {i \in DOMAIN s : s[i] \notin C}
-                    IN  IF B = {} THEN 0 ELSE Min(B)
+FirstNotIn(s, C) == IF \A i \in DOMAIN s : s[i] \in C THEN 0
+                    ELSE CHOOSE i \in DOMAIN s : s[i] \notin C /\ \A j \in 1..(i-1) : s[j] \in C
 
 \* first position of byte b; 0 if there is none
-IndexOf(s, b) == LET B == {i \in DOMAIN s : s[i] = b}
-                 IN  IF B = {} THEN 0 ELSE Min(B)
+IndexOf(s, b) == IF \A i \in DOMAIN s : s[i] # b THEN 0
+                 ELSE CHOOSE i \in DOMAIN s : s[i] = b /\ \A j \in 1..(i-1) : s[j] # b
 
 Before(s, b) == LET i == IndexOf(s, b) IN IF i = 0 THEN s    ELSE SubSeq(s, 1, i-1)
 After(s, b)  == LET i == IndexOf(s, b) IN IF i = 0 THEN <<>> ELSE SubSeq(s, i+1, Len(s))
@@ -130,7 +130,7 @@ TrimMeta(p) == Before(p, COLON)
 MetaOf(p)   == From(p, COLON)
 
 Parts(o)    == Split(o, PIPE)
-Tenants(o)  == [k \in DOMAIN Parts(o) |-> TrimMeta(Parts(o)[k])]
+Tenants(o)  == LET ps == Parts(o) IN [k \in DOMAIN ps |-> TrimMeta(ps[k])]
 
 (* NormalizeTenantIDs: sorted and duplicate-free *)
 Normalize(ids) == SortedSeq(Range(ids))
@@ -196,13 +196,13 @@ WellFormedMeta(m) ==
 
 (* Operations on well-formed metadata *)
 Pairs(m) == IF m = <<>> THEN <<>>
-            ELSE [k \in DOMAIN MetaItems(m) |-> <<KeyOf(MetaItems(m)[k]), ValOf(MetaItems(m)[k])>>]
+            ELSE LET it == MetaItems(m) IN [k \in DOMAIN it |-> <<KeyOf(it[k]), ValOf(it[k])>>]
 
 RECURSIVE Encode(_)
 Encode(ps) == IF ps = <<>> THEN <<>>
               ELSE <<COLON>> \o ps[1][1] \o <<EQ>> \o ps[1][2] \o Encode(Tail(ps))
 
-Divide(m) == [k \in DOMAIN Pairs(m) |-> Encode(<<Pairs(m)[k]>>)]
+Divide(m) == LET P == Pairs(m) IN [k \in DOMAIN P |-> Encode(<<P[k]>>)]
 
 MetaGet(m, key) ==
     LET P == Pairs(m)
@@ -245,10 +245,13 @@ HTTPSingle(c)  == IF ~c.has \/ c.b = <<>> THEN Err("no_org_id") ELSE Single(c.b)
 (* The property's clauses, as theorems about one organisation id string o. *)
 
 Accepted(o) ==
-    (IF Single(o).ok   THEN {Single(o).val}          ELSE {}) \cup
-    (IF Multi(o).ok    THEN Range(Multi(o).val)      ELSE {}) \cup
-    (IF WithMeta(o).ok THEN {WithMeta(o).val.tenant} ELSE {}) \cup
-    (IF Valid(o).ok    THEN {o}                      ELSE {})
+    LET s == Single(o)
+        m == Multi(o)
+        w == WithMeta(o)
+    IN  (IF s.ok        THEN {s.val}        ELSE {}) \cup
+        (IF m.ok        THEN Range(m.val)   ELSE {}) \cup
+        (IF w.ok        THEN {w.val.tenant} ELSE {}) \cup
+        (IF Valid(o).ok THEN {o}            ELSE {})
 
 ThmValidIsDocumentedRule(o) == Valid(o).ok <=> IsValidTenantID(o)
 
@@ -258,11 +261,12 @@ ThmNoSeparatorInAccepted(o) ==
         /\ \A i \in DOMAIN t : t[i] \notin Forbidden
 
 ThmResolversAgree(o) ==
-    LET s == Single(o)
-        m == Multi(o)
+    LET s  == Single(o)
+        m  == Multi(o)
+        ts == Tenants(o)
     IN  /\ s.ok <=> (m.ok /\ Len(m.val) = 1)
         /\ s.ok => /\ m.val = <<s.val>>
-                   /\ \A k \in DOMAIN Tenants(o) : Tenants(o)[k] = s.val
+                   /\ \A k \in DOMAIN ts : ts[k] = s.val
         \* a validation error of the single-tenant resolver is the multi-tenant resolver's error
         /\ (~s.ok /\ s.err \in ValidationErrs) => m = s
         \* "too many": the multi-tenant resolver sees at least two tenants or an invalid later part
@@ -273,11 +277,13 @@ ThmResolversAgree(o) ==
         /\ ~m.ok => m.err \in ValidationErrs
 
 ThmMultiIsNormalised(o) ==
-    LET m == Multi(o) IN
-    /\ m.ok <=> \A k \in DOMAIN Tenants(o) : IsValidTenantID(Tenants(o)[k])
+    LET m  == Multi(o)
+        ts == Tenants(o)
+    IN
+    /\ m.ok <=> \A k \in DOMAIN ts : IsValidTenantID(ts[k])
     /\ m.ok =>
         /\ StrictlySorted(m.val)
-        /\ Range(m.val) = Range(Tenants(o))          \* exactly the supplied tenants
+        /\ Range(m.val) = Range(ts)                  \* exactly the supplied tenants
         /\ Normalize(m.val) = m.val                   \* idempotent
         \* the answer depends only on the set of supplied tenants
         /\ Multi(Join(Reverse(Parts(o)), PIPE)) = m
@@ -286,34 +292,42 @@ ThmMultiIsNormalised(o) ==
 
 ThmMetadataIgnoredConsistently(o) ==
     LET stripped == Join(Tenants(o), PIPE)
-        s == Single(o)
-        w == WithMeta(o)
+        s  == Single(o)
+        w  == WithMeta(o)
+        ps == Parts(o)
     IN  /\ Single(stripped) = s
         /\ Multi(stripped)  = Multi(o)
         /\ w.ok => /\ s = Ok(w.val.tenant)
                    /\ Multi(o) = Ok(<<w.val.tenant>>)
                    /\ WellFormedMeta(w.val.meta)
-                   /\ \A k \in DOMAIN Parts(o) : Parts(o)[k] = w.val.tenant \o w.val.meta
+                   /\ \A k \in DOMAIN ps : ps[k] = w.val.tenant \o w.val.meta
         /\ s.ok => \/ w.ok /\ w.val.tenant = s.val
                    \/ ~w.ok /\ w.err \in {"too_many"} \cup MetaErrs
         /\ (~s.ok /\ s.err \in ValidationErrs) => w = s
         /\ (~s.ok /\ s.err = "too_many") => (~w.ok /\ w.err = "too_many")
 
 ThmSplitJoin(o) ==
-    /\ Join(Parts(o), PIPE) = o
+    LET ps == Parts(o) IN
+    /\ Join(ps, PIPE) = o
     /\ TrimMeta(o) \o MetaOf(o) = o
-    /\ \A k \in DOMAIN Parts(o) : IndexOf(Parts(o)[k], PIPE) = 0
+    /\ \A k \in DOMAIN ps : IndexOf(ps[k], PIPE) = 0
     /\ IndexOf(TrimMeta(o), COLON) = 0
-
-ProbeKeys == {<<>>, <<48>>, <<97>>, <<98>>}
-ProbeVals == {<<>>, <<48>>, <<EQ, 97>>}
 
 ThmMetaGrammar(m) ==
     /\ ParseMeta(m).ok <=> WellFormedMeta(m)
-    /\ ParseMeta(m).ok => ValidMeta(m).ok
-    /\ ParseMeta(m).ok =>
-        /\ Encode(Pairs(m)) = m
-        /\ \A k \in ProbeKeys, v \in ProbeVals :
+    /\ ParseMeta(m).ok => ValidMeta(m).ok /\ Encode(Pairs(m)) = m
+
+(* Get / Set (With) on well-formed metadata, probed with a few keys and values: Set keeps   *)
+(* the grammar (as long as the result fits), makes the key readable and leaves every other  *)
+(* key alone.                                                                               *)
+ProbeKeySeq == << <<>>, <<48>>, <<97>>, <<98>> >>            \* "", "0", "a", "b"
+ProbeValSeq == << <<>>, <<48>>, <<EQ, 97>> >>                \* "", "0", "=a"
+ProbeKeys == Range(ProbeKeySeq)
+ProbeVals == Range(ProbeValSeq)
+
+ThmMetaOps(m) ==
+    ParseMeta(m).ok =>
+        \A k \in ProbeKeys, v \in ProbeVals :
              LET m2 == MetaSet(m, k, v) IN
              /\ Len(m2) <= MaxMetadataLength => ParseMeta(m2).ok
              /\ MetaGet(m2, k) = [found |-> TRUE, val |-> v]
@@ -324,8 +338,9 @@ ThmMetaGrammar(m) ==
 (* states so that TLC's workers share the enumeration.                     *)
 CONSTANTS Alphabet,      \* representative bytes for the exhaustive short strings
           MaxShort,      \* all strings over Alphabet up to this length
-          RunBytes,      \* bytes of the run-length families
+          RunBytes,      \* bytes that occur in long runs (valid id characters)
           RunCounts,     \* run lengths
+          SepBytes,      \* bytes that occur once between runs (separators, invalid bytes)
           MaxSegs,       \* up to this many (byte, count) segments
           Pool,          \* sequence of parts for the part-list family
           MaxParts,      \* lists of 1..MaxParts parts
@@ -346,7 +361,7 @@ RECURSIVE Expand(_)
 Expand(segs) == IF segs = <<>> THEN <<>>
                 ELSE Rep(segs[1][1], segs[1][2]) \o Expand(Tail(segs))
 
-Seg == RunBytes \X RunCounts
+Seg == (RunBytes \X RunCounts) \cup (SepBytes \X {1})
 
 Seeds ==
     {[f |-> "edge",    x |-> <<>>]} \cup
@@ -405,11 +420,11 @@ Next == /\ phase = "seed"
 
 Spec == Init /\ [][Next]_vars
 
-(* Part pools for the configs ("a", "0", the same tenant with two different metadata, the    *)
-(* empty part, an invalid part; the thorough pool adds "..", another tenant with metadata    *)
-(* and a valid tenant with malformed metadata).                                              *)
-PoolQuick    == << <<97>>, <<48>>, <<97, COLON, 97, EQ, 48>>, <<97, COLON, 48, EQ, 48>>, <<>>, <<SLASH>> >>
-PoolThorough == PoolQuick \o << <<DOT, DOT>>, <<48, COLON, 97, EQ, 48>>, <<97, COLON, SLASH>> >>
+(* Part pools for the configs: "a", "0", tenant "a" with two different metadata, an invalid  *)
+(* part; the thorough pool adds the empty part, "..", another tenant with metadata and a     *)
+(* valid tenant with malformed metadata.                                                     *)
+PoolQuick    == << <<97>>, <<48>>, <<97, COLON, 97, EQ, 48>>, <<97, COLON, 48, EQ, 48>>, <<SLASH>> >>
+PoolThorough == PoolQuick \o << <<>>, <<DOT, DOT>>, <<48, COLON, 97, EQ, 48>>, <<97, COLON, SLASH>> >>
 
 -----------------------------------------------------------------------------
 (* Invariants: the theorems on every enumerated organisation id. *)
@@ -426,7 +441,10 @@ MultiIsNormalised            == IsCase => ThmMultiIsNormalised(org.b)
 MetadataIgnoredConsistently  == IsCase => ThmMetadataIgnoredConsistently(org.b)
 SplitJoin                    == IsCase => ThmSplitJoin(org.b)
 MetaGrammar                  == IsCase => /\ ThmMetaGrammar(org.b)
-                                          /\ ThmMetaGrammar(MetaOf(Parts(org.b)[1]))
+                                          /\ ThmMetaGrammar(MetaOf(Before(org.b, PIPE)))
+\* checked on the first part's metadata when there is some (and once on the empty metadata)
+MetaOps                      == IsCase => LET m == MetaOf(Before(org.b, PIPE)) IN
+                                          (m # <<>> \/ fam = "edge") => ThmMetaOps(m)
 \* a context without an organisation id is refused by every resolver, never defaulted
 NoOrgIsRefused == (IsCase /\ ~org.has) =>
                      /\ CtxSingle(org) = Err("no_org_id")
@@ -440,11 +458,12 @@ NoOrgIsRefused == (IsCase /\ ~org.has) =>
 MetaOpsOf(m) ==
     [pairs  |-> Pairs(m),
      divide |-> Divide(m),
-     gets   |-> [k \in 1..Cardinality(ProbeKeys) |->
-                   LET key == SortedSeq(ProbeKeys)[k] IN
-                   [key |-> key, found |-> MetaGet(m, key).found, val |-> MetaGet(m, key).val]],
-     sets   |-> LET ks == SortedSeq(ProbeKeys)
-                    vs == SortedSeq(ProbeVals)
+     gets   |-> [k \in DOMAIN ProbeKeySeq |->
+                   LET key == ProbeKeySeq[k]
+                       g   == MetaGet(m, key)
+                   IN  [key |-> key, found |-> g.found, val |-> g.val]],
+     sets   |-> LET ks == ProbeKeySeq
+                    vs == ProbeValSeq
                 IN  [j \in 1..(Len(ks) * Len(vs)) |->
                        LET key == ks[((j-1) \div Len(vs)) + 1]
                            val == vs[((j-1) % Len(vs)) + 1]
@@ -452,21 +471,28 @@ MetaOpsOf(m) ==
 
 NoMetaOps == [pairs |-> <<>>, divide |-> <<>>, gets |-> <<>>, sets |-> <<>>]
 
+\* what is observable of a result: value or error class, and the byte an
+\* "unsupported character" error names (-1 otherwise)
+Proj(r) == [ok |-> r.ok, err |-> r.err, bad |-> IF r.pos # 0 THEN r.id[r.pos] ELSE -1, val |-> r.val]
+
 Outcome(c) ==
     [has       |-> c.has,
      in        |-> c.b,
-     valid     |-> Valid(c.b),
+     valid     |-> Proj(Valid(c.b)).err,
+     validbad  |-> Proj(Valid(c.b)).bad,
      trim      |-> TrimMeta(c.b),
      parts     |-> Parts(c.b),
      normalize |-> Normalize(Parts(c.b)),
-     single    |-> CtxSingle(c),
-     multi     |-> CtxMulti(c),
-     withmeta  |-> CtxWithMeta(c),
-     http      |-> HTTPSingle(c),
-     validmeta |-> ValidMeta(c.b),
-     parsemeta |-> ParseMeta(c.b),
-     metaops   |-> IF ParseMeta(c.b).ok THEN MetaOpsOf(c.b) ELSE NoMetaOps,
-     wmops     |-> IF CtxWithMeta(c).ok THEN MetaOpsOf(CtxWithMeta(c).val.meta) ELSE NoMetaOps]
+     single    |-> Proj(CtxSingle(c)),
+     multi     |-> Proj(CtxMulti(c)),
+     withmeta  |-> Proj(CtxWithMeta(c)),
+     http      |-> Proj(HTTPSingle(c)),
+     validmeta |-> Proj(ValidMeta(c.b)).err,
+     parsemeta |-> Proj(ParseMeta(c.b)).err,
+     metabad   |-> Proj(ParseMeta(c.b)).bad,
+     \* Metadata methods on the parsed metadata (where there is some, and on the empty one for ids of length <= 1)
+     wmops     |-> LET w == CtxWithMeta(c) IN
+                   IF w.ok /\ (w.val.meta # <<>> \/ Len(c.b) <= 1) THEN MetaOpsOf(w.val.meta) ELSE NoMetaOps]
 
 Emit == IsCase => PrintT(ToJson([fam |-> fam] @@ Outcome(org)))
 =============================================================================
